@@ -1,5 +1,5 @@
 (* C06 -- Bootstrap intervals are ordered, nested by level, and margins stay in [-1, 1]. *)
-From Coq Require Import ZArith QArith List Bool.
+From Coq Require Import ZArith QArith Qminmax List Bool.
 From Elex Require Import Base.QRound Model.Ranks Model.NonrepBounds Proofs.RanksProofs Proofs.NonrepBoundsProofs Proofs.GenFormulas Gen.Formulas.
 Import ListNotations.
 Open Scope Q_scope.
@@ -86,6 +86,11 @@ Theorem C06_margin_clip_bounds : forall ylo yhi pev nm : Q, 0 <= pev -> ylo <= n
   let b := y_bounds ylo yhi pev nm in ylo <= fst b /\ fst b <= nm /\ nm <= snd b /\ snd b <= yhi.
 Proof. exact y_clip_bounds_range. Qed.
 Print Assumptions C06_margin_clip_bounds.
+
+Theorem C06_margin_clip_bounds_span : forall ylo yhi pev nm : Q, 0 <= pev -> ylo <= yhi ->
+  let b := y_bounds ylo yhi pev nm in Qmin ylo nm <= fst b /\ fst b <= snd b /\ snd b <= Qmax yhi nm.
+Proof. exact y_clip_bounds_span. Qed.
+Print Assumptions C06_margin_clip_bounds_span.
 
 Theorem C06_turnout_clip_bounds : forall zlo zhi err pev tf : Q,
   0 <= pev -> 0 <= tf -> 0 <= err -> zlo <= zhi -> (1 # 100000000) <= zhi ->
